@@ -443,7 +443,8 @@ fn threshold_sectors(bps: u16) -> Vec<u32> {
 }
 
 fn random_opts(rng: &mut Rng) -> FOpts {
-    let bps = *rng.pick(&[512u16, 512, 1024, 2048, 4096]);
+    // sector sizes above 4096 pass the option builder but are unsatisfiable (the specification stops at 4096)
+    let bps = *rng.pick(&[512u16, 512, 512, 1024, 1024, 2048, 2048, 4096, 4096, 8192, 16384, 32768]);
     let bpc = match rng.below(8) {
         0..=2 => None,
         _ => Some(u32::from(bps) << rng.below(9).min(8)),
@@ -472,7 +473,7 @@ fn random_opts(rng: &mut Rng) -> FOpts {
         bps,
         bpc,
         fats: 1 + rng.below(2) as u8,
-        root_entries: *rng.pick(&[1u16, 15, 16, 17, 224, 512, 512, 513, 65535, 64, 128]),
+        root_entries: *rng.pick(&[1u16, 15, 16, 17, 224, 512, 512, 513, 65535, 64, 128, 0]),
         fat,
         label,
         volume_id: rng.next_u32(),
